@@ -223,12 +223,17 @@ class BasicEmbeddingsIndex(EmbeddingsIndex):
         # print(f"Running batch of length {len(batch)}")
 
         # Compute the embeddings
-        embeddings = await self._get_embeddings(batch)
-        for i in range(len(embeddings)):
-            self._req_results[batch_ids[i]] = embeddings[i]
-
-        # Signal that the batch has finished processing
-        batch_event.set()
+        try:
+            embeddings = await self._get_embeddings(batch)
+            for i in range(len(embeddings)):
+                self._req_results[batch_ids[i]] = embeddings[i]
+        except Exception as e:
+            # The requests of this batch are waiting: they get the error instead of a result
+            for req_id in batch_ids:
+                self._req_results[req_id] = e
+        finally:
+            # Signal that the batch has finished processing
+            batch_event.set()
 
     async def _batch_get_embeddings(self, text: str) -> List[float]:
         # As long as the queue is full, we wait for the next batch
@@ -253,8 +258,9 @@ class BasicEmbeddingsIndex(EmbeddingsIndex):
         await self._current_batch_finished_event.wait()
 
         # Remove the result and return it
-        result = self._req_results[req_id]
-        del self._req_results[req_id]
+        result = self._req_results.pop(req_id)
+        if isinstance(result, Exception):
+            raise result
 
         return result
 
